@@ -31,11 +31,12 @@ for p in PROPS:
         "level_claimed": {
             "category": getattr(mod, "LEVEL", "other"),
             "text": getattr(mod, "LEVEL_TEXT", getattr(mod, "DECIDED", "")),
-            "design_ref": f"DESIGN.md section 3, {pid}",
+            "design_ref": f"DESIGN.md section 3 ({pid}: plan) and section 8.5 ({pid}: rules as built)",
         },
         "level_note": getattr(mod, "LEVEL_NOTE", "Decided: " + getattr(mod, "DECIDED", "") + " Not decided: " + getattr(mod, "NOT_DECIDED", "")
                               + " Trusted base: rustc nightly front end/MIR builder/const evaluator, the chessfacts serialiser, the Python rule engine and its reference definitions."),
-        "technique": getattr(mod, "TECHNIQUE", "static analysis of rustc MIR/const values (custom rustc_private driver + rule engine)"),
+        "technique": getattr(mod, "TECHNIQUE", "static analysis (custom rustc_private driver extracting MIR, layouts and constant values from /repo on every run; repository-specific rules over "
+                             "them: term summaries, CFG/call-graph rules, intervals, evaluation of extracted summaries over finite domains; nothing of /repo is executed). " + getattr(mod, "EXPLANATION", "")[:600]),
     })
 
 manifest = {
